@@ -571,9 +571,10 @@ where
                 );
             }
 
-            let permitted = {
+            let (permitted, trial_slot) = {
                 let mut circuit = circuit.lock().await;
-                circuit.try_acquire(&config)
+                let permitted = circuit.try_acquire(&config);
+                (permitted, circuit.take_trial_slot())
             };
 
             #[cfg(feature = "tracing")]
@@ -604,6 +605,10 @@ where
             let start = tokio::time::Instant::now();
             let result = inner.call(req).await;
             let duration = start.elapsed();
+            // The outcome gets recorded below; a trial call keeps its half-open slot
+            if let Some(slot) = trial_slot {
+                slot.disarm();
+            }
 
             let mut circuit = circuit.lock().await;
             if config.failure_classifier.classify(&result) {
@@ -741,9 +746,10 @@ where
                 );
             }
 
-            let permitted = {
+            let (permitted, trial_slot) = {
                 let mut circuit = circuit.lock().await;
-                circuit.try_acquire(&config)
+                let permitted = circuit.try_acquire(&config);
+                (permitted, circuit.take_trial_slot())
             };
 
             #[cfg(feature = "tracing")]
@@ -780,6 +786,10 @@ where
             let start = tokio::time::Instant::now();
             let result = inner.call(req).await;
             let duration = start.elapsed();
+            // The outcome gets recorded below; a trial call keeps its half-open slot
+            if let Some(slot) = trial_slot {
+                slot.disarm();
+            }
 
             let mut circuit = circuit.lock().await;
             if config.failure_classifier.classify(&result) {
